@@ -9,13 +9,16 @@
 //	pclose <k>                   the application closes the k-th accepted peer stream, the peer finishes its
 //	                             side (FIN) and acknowledges everything: the stream is completely closed
 //	nstream <b|u>                application: NewStream / NewSendOnlyStream with an expired context
+//	lclose <k>                   the application closes the k-th stream it opened itself, the peer finishes and
+//	                             acknowledges: a LOCALLY initiated stream is completely closed (must not extend the
+//	                             peer's limit)
 //	pmax <b|u> <v>               peer sends MAX_STREAMS (any order, stale values included)
 //	ackall                       peer acknowledges everything received so far
 //
 // Each op line is `<op> => <observations>`, implementation result `ok`. Observation tokens:
 // tp:<bidi>:<uni> transport parameters sent, cfg:<bidi>:<uni> effective configuration,
 // m:<t>:<v> MAX_STREAMS frame sent by the Conn, x:<code> CONNECTION_CLOSE, acc:<t>:<num> stream returned
-// by AcceptStream, closed:<t>:<num>, ok:<num> / blocked (nstream), dead.
+// by AcceptStream, closed:<t>:<num> (peer-initiated stream), lclosed:<t>:<num> (locally initiated), ok:<num> / blocked (nstream), dead.
 package quic
 
 import (
@@ -43,7 +46,15 @@ func c21wGen(r *vu.Rng, i int) []string {
 	}
 	cfg := [2]int64{cfgPool[r.Intn(len(cfgPool))], cfgPool[r.Intn(len(cfgPool))]}
 	grant := [2]int64{grantPool[r.Intn(len(grantPool))], grantPool[r.Intn(len(grantPool))]}
+	// "held open" mode: small limits, the peer opens up to its limit and never closes, while the
+	// application opens and completely finishes streams of its own
+	held := r.Chance(1, 3)
+	if held {
+		cfg = [2]int64{int64(r.Range(1, 4)), int64(r.Range(1, 4))}
+		grant = [2]int64{int64(r.Range(2, 8)), int64(r.Range(2, 8))}
+	}
 	ops := []string{fmt.Sprintf("reset %s %d %d %d %d", side, cfg[0], cfg[1], grant[0], grant[1])}
+	locals := 0
 	// generator-side guess of the advertised limit, to aim at the boundary
 	var sim [2]remoteStreamLimits
 	for k := 0; k < 2; k++ {
@@ -54,10 +65,18 @@ func c21wGen(r *vu.Rng, i int) []string {
 	n := r.Range(6, 45)
 	for k := 0; k < n; k++ {
 		t := r.Intn(2)
-		switch x := r.Intn(100); {
+		x := r.Intn(100)
+		if held && x >= 40 && x < 65 {
+			x = 65 + r.Intn(35) // never close a peer stream
+		}
+		switch {
 		case x < 40:
 			var num int64
-			switch r.Intn(20) {
+			pick := r.Intn(20)
+			if held && pick < 5 {
+				pick = 11 // fill up to the limit without provoking STREAM_LIMIT_ERROR
+			}
+			switch pick {
 			case 0:
 				num = sim[t].max // first number beyond the limit
 			case 1, 2, 3:
@@ -89,8 +108,11 @@ func c21wGen(r *vu.Rng, i int) []string {
 					sim[q].maybeUpdateMax()
 				}
 			}
-		case x < 82:
+		case x < 78:
 			ops = append(ops, "nstream "+tn[t])
+			locals++
+		case x < 86:
+			ops = append(ops, fmt.Sprintf("lclose %d", r.Intn(locals+1)))
 		case x < 94:
 			v := int64(r.Range(0, 12))
 			if r.Chance(1, 10) {
@@ -117,6 +139,8 @@ type c21wCase struct {
 	lcount [2]int64
 	closed [2]int64
 	open   []*Stream // accepted, not yet closed
+	local  []*Stream // opened by the application, not yet closed
+	maxPn  packetNumber // largest 1-RTT packet number the Conn sent
 	finned map[streamID]bool
 }
 
@@ -205,6 +229,9 @@ func (x *c21wCase) drain() {
 			return
 		}
 		for _, p := range d.packets {
+			if p.ptype == packetType1RTT && p.num > x.maxPn {
+				x.maxPn = p.num
+			}
 			for _, f := range p.frames {
 				switch f := f.(type) {
 				case debugFrameMaxStreams:
@@ -220,6 +247,10 @@ func (x *c21wCase) drain() {
 							c21wTN[ti], f.max, x.closed[ti], f.max-x.closed[ti], x.cfg[ti]))
 					}
 					x.adv[ti] = f.max
+				case debugFrameStream:
+					if f.fin {
+						x.obs = append(x.obs, fmt.Sprintf("fin:%d", int64(f.id)))
+					}
 				case debugFrameConnectionCloseTransport:
 					x.obs = append(x.obs, fmt.Sprintf("x:%d", uint64(f.code)))
 					x.dead = true
@@ -230,6 +261,11 @@ func (x *c21wCase) drain() {
 			}
 		}
 	}
+}
+
+// ackAll: the peer acknowledges every 1-RTT packet the Conn has sent so far.
+func (x *c21wCase) ackAll() {
+	x.tc.writeFrames(packetType1RTT, debugFrameAck{ranges: []i64range[packetNumber]{{0, x.maxPn + 1}}})
 }
 
 func (x *c21wCase) step(op string) string {
@@ -351,7 +387,31 @@ func (x *c21wCase) step(op string) string {
 		x.o.Stat("wire:closed")
 		s.Close()
 		x.drain()
-		x.tc.writeAckForAll()
+		x.ackAll()
+		x.drain()
+	case t[0] == "lclose" && len(t) == 2:
+		k := vu.Atoi(t[1])
+		if k < 0 {
+			return bad()
+		}
+		if len(x.local) == 0 {
+			x.obs = append(x.obs, "-")
+			break
+		}
+		k %= len(x.local)
+		s := x.local[k]
+		x.local = append(x.local[:k], x.local[k+1:]...)
+		if s.id.streamType() == bidiStream {
+			// the peer finishes its half of our stream
+			x.tc.writeFrames(packetType1RTT, debugFrameStream{id: s.id, fin: true})
+			x.drain()
+		}
+		ai := c21wTI(s.id.streamType())
+		x.obs = append(x.obs, fmt.Sprintf("lclosed:%s:%d", c21wTN[ai], s.id.num()))
+		x.o.Stat("wire:local-closed")
+		s.Close()
+		x.drain()
+		x.ackAll()
 		x.drain()
 	case t[0] == "nstream" && len(t) == 2:
 		st, ti, ok := c21wType(t[1])
@@ -364,6 +424,9 @@ func (x *c21wCase) step(op string) string {
 			num := s.id.num()
 			x.obs = append(x.obs, fmt.Sprintf("ok:%d", num))
 			x.o.Stat("wire:local-open")
+			s.SetReadContext(ctx)
+			s.SetWriteContext(ctx)
+			x.local = append(x.local, s)
 			// ---- oracle: never open a stream at or beyond the peer's MAX_STREAMS
 			if num >= x.grant[ti] {
 				x.o.Fail("", fmt.Sprintf("NewStream(%s) opened stream number %d, peer MAX_STREAMS=%d", t[1], num, x.grant[ti]))
@@ -392,7 +455,7 @@ func (x *c21wCase) step(op string) string {
 		x.grant[ti] = max(x.grant[ti], v)
 		x.drain()
 	case t[0] == "ackall" && len(t) == 1:
-		x.tc.writeAckForAll()
+		x.ackAll()
 		x.drain()
 	default:
 		return bad()
